@@ -328,7 +328,7 @@ Definition vtt_classify (l : text) : vtt_view :=
 Inductive vtt_state := V_START | V_LOOKING | V_NOTE | V_STYLE | V_TEXT | V_TEXT_MORE.
 Record vtt_vars := { v_state : vtt_state; v_p : option bool; v_text_bound : bool; v_oracle : list sub_result; v_calls : list bool }.
 Definition vtt_init (oracle : list sub_result) : vtt_vars :=
-  {| v_state := V_START; v_p := None; v_text_bound := false (* subtitle_text is not initialised *); v_oracle := oracle; v_calls := [] |}.
+  {| v_state := V_START; v_p := None; v_text_bound := false (* subtitle_text is bound when a cue's paragraph is created *); v_oracle := oracle; v_calls := [] |}.
 Definition vset (st : vtt_state) (v : vtt_vars) : vtt_vars :=
   {| v_state := st; v_p := v_p v; v_text_bound := v_text_bound v; v_oracle := v_oracle v; v_calls := v_calls v |}.
 
@@ -362,13 +362,14 @@ Definition vtt_looking (v : vtt_vars) (l : vtt_view) : vtt_vars + outcome :=
   else if negb (vv_arrow l) then inl v                                  (* cue identifier *)
   else if negb (vv_cue l) then inl v                                    (* LOGGER.warning; continue *)
   else if vv_overflow l then inr (Internal OverflowErr)                 (* _get_or_make_region -> parse_vtt_pct -> round(inf) *)
-  else inl {| v_state := V_TEXT; v_p := Some false; v_text_bound := v_text_bound v; v_oracle := v_oracle v; v_calls := v_calls v |}.
+  else inl {| v_state := V_TEXT; v_p := Some false (* current_p = model.P(doc) *); v_text_bound := true (* subtitle_text = "" *);
+              v_oracle := v_oracle v; v_calls := v_calls v |}.
 
 Definition vtt_step (v : vtt_vars) (item : option vtt_view) : vtt_vars + outcome :=
   match v_state v with
   | V_START =>
       match item with
-      | None => inr (Internal AttributeErr)                             (* None.startswith("WEBVTT") *)
+      | None => inr OkDoc                                               (* if line is None: break (empty file) *)
       | Some _ => inl (vset V_LOOKING v)
       end
   | V_NOTE | V_STYLE =>
@@ -406,24 +407,7 @@ Fixpoint vtt_trace (v : vtt_vars) (items : list vtt_view) : list bool :=
 Definition vtt_calls (oracle : list sub_result) (content : text) : list bool :=
   vtt_trace (vtt_init oracle) (map vtt_classify (readlines content)).
 
-(* variant: the reader with `subtitle_text = ""` before the loop (the obvious repair of finding vtt-cue-without-payload).  The
-   correspondence accepts the code if all cases agree with one and the same variant, and reports which. *)
-Definition vtt_init_fixed (oracle : list sub_result) : vtt_vars :=
-  {| v_state := V_START; v_p := None; v_text_bound := true; v_oracle := oracle; v_calls := [] |}.
-Definition vtt_views_fixed (oracle : list sub_result) (items : list vtt_view) : outcome :=
-  match vtt_loop (vtt_init_fixed oracle) items with inr o => o | inl _ => OkDoc end.
-Definition vtt_run_fixed (oracle : list sub_result) (content : text) : outcome :=
-  vtt_views_fixed oracle (map vtt_classify (readlines content)).
-Definition vtt_calls_fixed (oracle : list sub_result) (content : text) : list bool :=
-  vtt_trace (vtt_init_fixed oracle) (map vtt_classify (readlines content)).
-
-(* executable triggers *)
-(* vtt-cue-without-payload (over-approximation): a line containing "-->" is followed by a blank line or by the end *)
-Fixpoint arrow_without_payload (items : list vtt_view) : bool :=
-  match items with
-  | [] => false
-  | l :: rest => (vv_arrow l && match rest with [] => true | n :: _ => vv_blank n end) || arrow_without_payload rest
-  end.
+(* executable trigger of finding vtt-percentage-overflow *)
 Definition vtt_any_overflow (items : list vtt_view) : bool := existsb vv_overflow items.
 
 (* ---- the cursor of _TextCueParser ------------------------------------------------------------------------------- *)
@@ -655,7 +639,7 @@ Record stl_vars := {
   t_fps : Z * Z;
   t_count : Z;                       (* tti_count *)
   t_offset : Z * Z;                  (* start_offset as numerator / denominator (seconds) *)
-  t_rows : option Z;                 (* max_row_count; None = attribute never assigned *)
+  t_rows : option Z;                 (* max_row_count; None = attribute never assigned (cannot happen since repository commit 41b1329) *)
   t_teletext : bool;
   t_last_sn : option Z;
   t_have_p : bool;                   (* cur_p_element is not None *)
@@ -688,7 +672,7 @@ Definition stl_header (cfg : stl_cfg) (gsi : list Z) : stl_hdr + outcome :=
       | StartTCP =>
           match gsi_tcp_ints gsi with
           | Some (h, m, s, f) => inl (tc_frames fps h m s f * snd fps, fst fps)
-          | None => inr (Internal AttributeErr)                                      (* except ValueError: ... self.gsi.tcp *)
+          | None => inl (0, 1)                                                       (* except ValueError: logged; self.start_offset = 0 *)
           end
       | StartTimecode df h m s f =>
           (* SmpteTimeCode.parse: a time code that does not match the non-drop pattern switches a rate whose denominator is not 1001
@@ -705,7 +689,7 @@ Definition stl_header (cfg : stl_cfg) (gsi : list Z) : stl_hdr + outcome :=
           | RowsMNR => if teletext then (Some 23, off)
                        else match bytes_int (slice 253 2 gsi) with
                             | Some n => (Some n, off)
-                            | None => (None, (23, 1))                                 (* self.start_offset = DEFAULT_TELETEXT_ROWS *)
+                            | None => (Some 23, off)                                  (* except ValueError: self.max_row_count = DEFAULT_TELETEXT_ROWS *)
                             end
           | RowsInt n => if teletext then (Some 23, off) else (Some n, off)
           end in
@@ -746,8 +730,8 @@ Definition stl_block (v : stl_vars) (b : list Z) : stl_vars + outcome :=
     let sn := nth 1 b 0 + 256 * nth 2 b 0 in
     let cs := nth 4 b 0 in
     let vp := nth 13 b 0 in
-    (* `tti.SN is not self.last_sn`: identity of int objects — equal values are the same object only up to 256 *)
-    let same := match t_last_sn v with Some l => (l =? sn) && (sn <=? 256) | None => false end in
+    (* `tti.SN != self.last_sn` *)
+    let same := match t_last_sn v with Some l => l =? sn | None => false end in
     let fresh := negb same && cs_starts cs in
     let geometry : option outcome :=
       if fresh then
@@ -794,15 +778,10 @@ Definition stl_run (cfg : stl_cfg) (oracle : list sub_result) (file : list Z) : 
 
 
 (* executable triggers of the recorded STL findings, on the GSI block [gsi = firstn 1024 file] and the TTI blocks *)
-Definition trig_bad_tcp (cfg : stl_cfg) (gsi : list Z) : bool :=
-  match cfg_start cfg with
-  | StartTCP => match gsi_tcp_ints gsi with Some _ => false | None => true end
-  | _ => false
-  end.
-(* stl-bad-mnr and stl-zero-row-count *)
-Definition trig_bad_mnr (cfg : stl_cfg) (gsi : list Z) : bool :=
+(* stl-zero-row-count: open subtitles whose row count (GSI MNR under max_row_count = "MNR", or the configured integer) is 0 *)
+Definition trig_zero_rows (cfg : stl_cfg) (gsi : list Z) : bool :=
   match cfg_rows cfg with
-  | RowsMNR => negb (gsi_teletext gsi) && match bytes_int (slice 253 2 gsi) with None => true | Some n => n =? 0 end
+  | RowsMNR => negb (gsi_teletext gsi) && match bytes_int (slice 253 2 gsi) with None => false | Some n => n =? 0 end
   | RowsInt n => negb (gsi_teletext gsi) && (n =? 0)
   | RowsNone => false
   end.
